@@ -1,7 +1,7 @@
 #!/bin/bash
 # collect_refac.sh <n> [prefix] [dir] — verify (build, vet, tests) each refactoring of a finished agent's worktree /tmp/wt/R<n> and store it under /verif/refactorings/<prefix><n>-<x>/
 export GOFLAGS=-mod=mod GOPROXY=off GOSUMDB=off GOTOOLCHAIN=local
-n=$1; pre=${2:-S}; sub=${3:-_refac2}; wt=/tmp/wt/R$n
+n=$1; pre=${2:-S}; sub=${3:-_refac2}; wt=/tmp/wt/${4:-R}$n
 for x in a b c d; do
   d=$wt/$sub/$x; [ -f $d/patch.diff ] || { echo "$pre$n-$x: no patch"; continue; }
   (cd $wt && git checkout -q -- . && git apply $d/patch.diff) || { echo "$pre$n-$x: APPLY FAILED"; continue; }
